@@ -6,6 +6,10 @@ import Driver.C13
 import Driver.C07
 import Driver.C04
 import Driver.C18
+import Driver.C19
+import Driver.C05
+import Driver.C02
+import Driver.C06
 import Driver.C16
 import Driver.C17
 /-! Line-protocol driver: one op per line on stdin (`<Cxx> <op> <args…>`), one answer per line. -/
@@ -21,6 +25,10 @@ def dispatch (line : String) : String :=
   | "C07" :: rest => Driver.C07.handle rest
   | "C04" :: rest => Driver.C04.handle rest
   | "C18" :: rest => Driver.C18.handle rest
+  | "C19" :: rest => Driver.C19.handle rest
+  | "C05" :: rest => Driver.C05.handle rest
+  | "C02" :: rest => Driver.C02.handle rest
+  | "C06" :: rest => Driver.C06.handle rest
   | "C16" :: rest => Driver.C16.handle rest
   | "C17" :: rest => Driver.C17.handle rest
   | _ => "bad-op"
